@@ -57,6 +57,9 @@ func record(hdr []HField, data []byte) []byte {
 }
 
 // EncodeRec serialises one record (chunks recursively).
+// Bz2 compresses a chunk body with bzip2; installed by the driver.
+var Bz2 func([]byte) []byte
+
 func EncodeRec(r Rec) []byte {
 	switch r.Kind {
 	case "header":
@@ -85,6 +88,12 @@ func EncodeRec(r Rec) []byte {
 			w.Close()
 			data2 := c.Bytes()
 			return record([]HField{{"op", []byte{0x05}}, {"compression", []byte("lz4")}, {"size", u32(uint32(len(data)))}}, data2)
+		case "bz2":
+			// Go has no bzip2 encoder: the driver plugs one in (the Python standard library's)
+			if Bz2 == nil {
+				panic("rosgen: no bzip2 encoder installed")
+			}
+			return record([]HField{{"op", []byte{0x05}}, {"compression", []byte("bz2")}, {"size", u32(uint32(len(data)))}}, Bz2(data))
 		default:
 			return record([]HField{{"op", []byte{0x05}}, {"compression", []byte("none")}, {"size", u32(uint32(len(data)))}}, data)
 		}
